@@ -449,7 +449,9 @@ class BaseSched:
         self.tail_loop0 = None
 
     def q(self, sim):
-        return sim.ka + 5
+        # longest response path: with the connection limit reached (F5) slots only free up by
+        # keep-alive expiry, one after the other
+        return sim.nconn * (sim.ka + 2) + 3
 
     def start_tail(self, sim):
         self.phase = "tail"
